@@ -112,7 +112,7 @@ def run(ctx):
     nseq = ctx.pick(12, 80)
     maxn = ctx.pick(120, 200)
     # beyond the random bound: windows holding 256 or more residues of one group
-    seqs = common.random_sequences(ctx.rng, nseq, maxn, 1) + [("GGS" * 101)[:302], "Q" * 290]
+    seqs = common.random_sequences(ctx.rng, nseq, maxn, 1) + [("GGS" * 101)[:302], "Q" * 290, "".join(ctx.rng.choices("GSQNTAP", k=ctx.rng.randint(257, 330)))]
     trs = []
     for i, s in enumerate(seqs):
         o, s, how = make_object(lc, s, ctx.rng)
@@ -170,6 +170,12 @@ def run(ctx):
                     e["rows"] = [[common.fx(v) for v in row] for row in cp[1]]
                 ev.append(e)
             ctx.evaluations += 1
+        # delta is the mean squared deviation of the w=5,6 sigma profiles from the global sigma (MC_Profiles: DeltaFromProfiles)
+        dl = common.call(o.get_delta)
+        if dl[0] != "ok" or not common.is_number(dl[1]):
+            ctx.violation("delta-from-profiles", {"seq": s, "after": hist}, expected="a number", actual=dl)
+        else:
+            ev.append({"q": "delta", "r": common.fx(dl[1])})
         # a group with a non-amino-acid must not be silently accepted as a density of something
         bad = common.call(o.get_linear_sequence_composition, min(N, 3), [["K", "X"]])
         if bad[0] == "ok":
@@ -201,12 +207,12 @@ def run(ctx):
         ctx.traces += 1
         if v[0] == "reject":
             e = tr["ev"][v[1] - 1]
-            ctx.violation(v[2], {"seq": "".join(tr["seq"]), "after": tr["after"], "w": e["w"], "event": e["q"], "stat": e.get("stat"),
+            ctx.violation(v[2], {"seq": "".join(tr["seq"]), "after": tr["after"], "w": e.get("w"), "event": e["q"], "stat": e.get("stat"),
                                  "groups": e.get("groups")}, expected="profile of the specification", actual="trace rejected by TLC at event %d" % v[1])
         else:
             for e in tr["ev"]:
-                ctx.nontrivial.add(("".join(tr["seq"]), e["w"]))
-    ctx.sample({"trace": {"seq": "".join(trs[0]["seq"]), "ev": [{"q": e["q"], "w": e["w"], "stat": e.get("stat")} for e in trs[0]["ev"][:5]]}})
+                ctx.nontrivial.add(("".join(tr["seq"]), e.get("w")))
+    ctx.sample({"trace": {"seq": "".join(trs[0]["seq"]), "ev": [{"q": e["q"], "w": e.get("w"), "stat": e.get("stat")} for e in trs[0]["ev"][:5]]}})
     defaults.reset()
     ctx.assumptions += ["a one-group composition may come back as a 1-D row", "window sizes <= 0 are outside the statement",
                         "1e-9 relative tolerance"]
